@@ -100,12 +100,58 @@ class TieBroken(Exception):
         self.detail = detail
 
 
+GUARD_OWNERS = {}
+
+
 def translate():
     """Regenerate coq/Gen/*.v from /repo's working tree. Returns list of (guard, message) failures."""
     sys.path.insert(0, os.path.join(VERIF, "translator"))
     import translate as T
     with Lock("coq"):
-        return T.run(REPO, os.path.join(COQ, "Gen"))
+        fails = T.run(REPO, os.path.join(COQ, "Gen"))
+    GUARD_OWNERS.clear()
+    GUARD_OWNERS.update(T.OWNERS)
+    return fails
+
+
+def gen_deps(targets):
+    """Names of the Gen files that the given .v files (paths relative to coq/) depend on, transitively."""
+    seen, todo, gens = set(), list(targets), set()
+    while todo:
+        t = todo.pop()
+        if t in seen:
+            continue
+        seen.add(t)
+        try:
+            src = open(os.path.join(COQ, t)).read()
+        except OSError:
+            continue
+        src = re.sub(r"\(\*.*?\*\)", " ", src, flags=re.S)
+        for m in re.finditer(r"Require\s+(?:Import|Export)\s", src):
+            for tok in src[m.end():].split():
+                last = tok.endswith(".")
+                name = tok[:-1] if last else tok
+                if name.startswith("RB."):
+                    name = name[3:]
+                parts = name.split(".")
+                if len(parts) == 2 and parts[0] in ("Base", "Gen", "Model", "Proofs", "Corr", "Props"):
+                    if parts[0] == "Gen":
+                        gens.add(parts[1])
+                    todo.append("%s/%s.v" % (parts[0], parts[1]))
+                if last:
+                    break
+    return gens
+
+
+def own_guards(prop, fails, extra_targets=()):
+    """The guard failures that concern `prop`: raised by an extractor one of whose Gen files Props/<prop>.v (or an
+    extra target) depends on.  The others are returned separately."""
+    deps = gen_deps(["Props/%s.v" % prop] + [t[:-1] if t.endswith(".vo") else t for t in extra_targets])
+    own, other = [], []
+    for f in fails:
+        owners = GUARD_OWNERS.get(f[0], {"*"})
+        (own if ("*" in owners or owners & deps) else other).append(f)
+    return own, other
 
 
 def coq_project():
@@ -427,8 +473,11 @@ class Check:
         # one session lock around regenerate + build: a concurrent check (another property, or the same
         # checks pointed at a scratch tree through RB_REPO) must not swap coq/Gen between the two steps
         with Lock("coq-session"):
-            guards = translate()
+            all_guards = translate()
+            guards, other = own_guards(self.prop, all_guards, extra_targets)
             self.note("translator_guards_failed", guards)
+            if other:
+                self.note("translator_guards_failed_of_other_properties", other)
             res = coq_props(self.prop, extra_targets=extra_targets)
         self.cov["obligations"] = res["obligations"]
         self.cov["discharged"] = res["discharged"]
